@@ -88,6 +88,10 @@ func GenC19(t *rapid.T) *Case {
 	if moveHeavy {
 		nops = rapid.IntRange(30, 70).Draw(t, "nops-long")
 	}
+	// inner directory renames inside bursts (no delivery in between), possibly
+	// the same directory twice in a row
+	burstMv := Pct(t, "burstmv", 35)
+	fresh := 0
 	inBurst := 0
 	plugged := false
 	sync := func() {
@@ -136,20 +140,48 @@ func GenC19(t *rapid.T) *Case {
 			if _, ok := kind[dst]; ok || dst == src {
 				continue
 			}
+			mv := func(src, dst string, n int) {
+				steps = append(steps, Step{K: KRename, P: P(src), Q: P(dst), N: n})
+				moved := map[string]byte{}
+				for p, kk := range kind {
+					if under(p, src) {
+						moved[dst+p[len(src):]] = kk
+						delete(kind, p)
+					}
+				}
+				for p, kk := range moved {
+					kind[p] = kk
+				}
+			}
+			if burstMv {
+				if inBurst == 0 && rapid.IntRange(0, 2).Draw(t, "mvplug") == 0 {
+					steps = append(steps, Step{K: KPlug})
+				}
+				mv(src, dst, 1)
+				inBurst++
+				if rapid.IntRange(0, 2).Draw(t, "mvagain") == 0 {
+					fresh++
+					dst2 := filepath.Dir(dst) + "/" + rapid.SampledFrom(names).Draw(t, "mvname2")
+					if _, ok := kind[dst2]; !ok && dst2 != dst {
+						mv(dst, dst2, 1)
+						dst = dst2
+					}
+				}
+				// something happens inside the directory at its final place
+				f := dst + "/" + rapid.SampledFrom(fnames).Draw(t, "mvfile")
+				if _, ok := kind[f]; !ok {
+					steps = append(steps, Step{K: KCreate, P: P(f)})
+					kind[f] = 'f'
+				}
+				if rapid.IntRange(0, 1).Draw(t, "mvend") == 0 {
+					sync()
+				}
+				continue
+			}
 			if inBurst > 0 {
 				sync()
 			}
-			steps = append(steps, Step{K: KRename, P: P(src), Q: P(dst)})
-			moved := map[string]byte{}
-			for p, kk := range kind {
-				if under(p, src) {
-					moved[dst+p[len(src):]] = kk
-					delete(kind, p)
-				}
-			}
-			for p, kk := range moved {
-				kind[p] = kk
-			}
+			mv(src, dst, 0)
 			sync()
 		case k < 30: // rmdir of an inner directory (works when empty)
 			var inner []string
@@ -176,6 +208,23 @@ func GenC19(t *rapid.T) *Case {
 				delete(kind, p)
 			}
 			sync()
+		case k < 36 && k >= 34 && len(live) > 0: // a root removed and added again with events of its tree still pending
+			if inBurst > 0 {
+				sync()
+			}
+			r := rapid.SampledFrom(live).Draw(t, "rereadd")
+			ds := dirsOf(r)
+			d := rapid.SampledFrom(ds).Draw(t, "rereadd-dir")
+			fresh++
+			base := d + "/re" + string(rune('a'+fresh%26))
+			steps = append(steps, Step{K: KPlug}, Step{K: KCreate, P: P(base + "1")}, Step{K: KWrite, P: P(base + "1"), N: 1},
+				Step{K: KRRemoveNow, P: P(r)}, Step{K: KRAddNow, P: P(r)}, Step{K: KSync},
+				Step{K: KCreate, P: P(base + "2")}, Step{K: KSync})
+			kind[base+"1"], kind[base+"2"] = 'f', 'f'
+			if rapid.Bool().Draw(t, "rereadd-rm") {
+				steps = append(steps, Step{K: KRRemove, P: P(r)}, Step{K: KCreate, P: P(base + "3")}, Step{K: KSync}, Step{K: KRAdd, P: P(r)})
+				kind[base+"3"] = 'f'
+			}
 		case k < 34 && len(live) > 1: // remove one of several recursive roots
 			if inBurst > 0 {
 				sync()
